@@ -7,6 +7,7 @@ import (
 	"bufio"
 	"encoding/json"
 	"fmt"
+	"go/ast"
 	"go/parser"
 	"go/token"
 	"os"
@@ -192,6 +193,17 @@ func cmdAPI(in, out string) error {
 				b, _ := json.Marshal(AlphaWith(f, AlphaOpts{KeepImports: true}))
 				res.Out = string(b)
 			}
+		case "impobs":
+			// independent observation of a Go file: its imports, the names used as
+			// selector bases that do not resolve to a local declaration, and the
+			// names of the functions that are called
+			o, err := observeImports(r.Src)
+			if err != nil {
+				res.Err = err.Error()
+			} else {
+				b, _ := json.Marshal(o)
+				res.Out = string(b)
+			}
 		case "parses":
 			if _, err := parser.ParseFile(token.NewFileSet(), "x.go", r.Src, parser.ParseComments); err != nil {
 				res.Err = err.Error()
@@ -204,4 +216,64 @@ func cmdAPI(in, out string) error {
 		}
 	}
 	return sc.Err()
+}
+
+type impSpec struct {
+	Name string `json:"name"`
+	Path string `json:"path"`
+}
+
+type impObs struct {
+	Imports []impSpec `json:"imports"`
+	Uses    []string  `json:"uses"`
+	Calls   []string  `json:"calls"`
+}
+
+func observeImports(src string) (*impObs, error) {
+	f, err := parser.ParseFile(token.NewFileSet(), "x.go", src, parser.ParseComments)
+	if err != nil {
+		return nil, err
+	}
+	o := &impObs{Imports: []impSpec{}, Uses: []string{}, Calls: []string{}}
+	for _, d := range f.Decls {
+		g, ok := d.(*ast.GenDecl)
+		if !ok || g.Tok != token.IMPORT {
+			continue
+		}
+		for _, s := range g.Specs {
+			is := s.(*ast.ImportSpec)
+			p, _ := strconv.Unquote(is.Path.Value)
+			n := ""
+			if is.Name != nil {
+				n = is.Name.Name
+			}
+			o.Imports = append(o.Imports, impSpec{Name: n, Path: p})
+		}
+	}
+	seenU, seenC := map[string]bool{}, map[string]bool{}
+	ast.Inspect(f, func(n ast.Node) bool {
+		switch x := n.(type) {
+		case *ast.SelectorExpr:
+			if id, ok := x.X.(*ast.Ident); ok && id.Obj == nil && !seenU[id.Name] {
+				seenU[id.Name] = true
+				o.Uses = append(o.Uses, id.Name)
+			}
+		case *ast.CallExpr:
+			name := ""
+			switch fn := x.Fun.(type) {
+			case *ast.Ident:
+				name = fn.Name
+			case *ast.SelectorExpr:
+				if id, ok := fn.X.(*ast.Ident); ok {
+					name = id.Name + "." + fn.Sel.Name
+				}
+			}
+			if name != "" && !seenC[name] {
+				seenC[name] = true
+				o.Calls = append(o.Calls, name)
+			}
+		}
+		return true
+	})
+	return o, nil
 }
